@@ -100,7 +100,10 @@ class SignedCookieMiddleware(Middleware):
                                   httponly=self.http_only)
         if '_expires' in cookie:
             save_cookie_kwargs['expires'] = cookie['_expires']
-        cookie.save_cookie(response, **save_cookie_kwargs)
+        if callable(getattr(response, 'set_cookie', None)):
+            # not the case when the endpoint side handed back something
+            # that is not a response: dispatch reports that, not us
+            cookie.save_cookie(response, **save_cookie_kwargs)
         return response
 
     def _get_random(self):
